@@ -959,10 +959,87 @@ func runC17(c *Ctx) {
 			}
 		})
 		c.check(sizeOK && nameOK, "R5", "long name size and name", p.Pos(rl.Pos()), "dirent.Size(), dirent.Name()", "the long name's size or name does not come from the entry")
+		checkOwnerSourcesAgree(c, "R6")
 	}
 }
 
 // FuncDeclIn finds a method declaration by receiver type in any module package.
 func (p *Program) FuncDeclIn(pkgPath, recv, name string) (*ast.FuncDecl, *types.Info) {
 	return p.FuncDecl(pkgPath, recv, name)
+}
+
+// checkOwnerSourcesAgree (C17.R6): the long name and the attribute block of one entry are built by two functions
+// (runLs, fileStatFromInfo).  For "the long name agrees with the structured attributes" they must take the owner from
+// the same places with the same precedence: every concrete type of FileInfo.Sys() that one of them recognises the other
+// recognises too, and FileInfoUidGid is consulted before Sys() in the long name (in the attributes it overrides).
+func checkOwnerSourcesAgree(c *Ctx, rule string) {
+	p := c.P
+	sysTypes := func(names ...string) (map[string]bool, bool) {
+		out := map[string]bool{}
+		found := false
+		for _, n := range names {
+			fn := p.Func(n)
+			if fn == nil {
+				continue
+			}
+			found = true
+			eachInstr(fn, func(in ssa.Instruction) {
+				ta, ok := in.(*ssa.TypeAssert)
+				if !ok {
+					return
+				}
+				if call, ok := ta.X.(*ssa.Call); ok && call.Call.IsInvoke() && call.Call.Method.Name() == "Sys" {
+					out[typeName(ta.AssertedType)] = true
+				}
+			})
+		}
+		return out, found
+	}
+	ls, ok1 := sysTypes("runLs", "lsLinksUIDGID")
+	at, ok2 := sysTypes("fileStatFromInfo", "fileStatFromInfoOs")
+	if !ok1 || !ok2 {
+		c.missing(rule, "runLs / fileStatFromInfo")
+		return
+	}
+	keys := func(m map[string]bool) string {
+		var ks []string
+		for k := range m {
+			ks = append(ks, k)
+		}
+		sort.Strings(ks)
+		return strings.Join(ks, ", ")
+	}
+	same := len(ls) == len(at)
+	for k := range ls {
+		if !at[k] {
+			same = false
+		}
+	}
+	c.check(same && len(ls) > 0, rule, "owner sources of long name and attributes", "ls_formatting.go", "Sys() types {"+keys(ls)+"} in both",
+		"the long name takes the owner from Sys() of type {"+keys(ls)+"}, the attribute block from {"+keys(at)+"}: for a FileInfo whose Sys() is one of the others (e.g. *FileStat, what this package's Client returns) the long name shows an owner that the attributes of the same entry do not carry")
+	// precedence in runLs: FileInfoUidGid first
+	if rl := p.Func("runLs"); rl != nil {
+		var ug *ssa.TypeAssert
+		var sysAsserts []*ssa.TypeAssert
+		eachInstr(rl, func(in ssa.Instruction) {
+			ta, ok := in.(*ssa.TypeAssert)
+			if !ok {
+				return
+			}
+			if typeName(ta.AssertedType) == "FileInfoUidGid" {
+				ug = ta
+			}
+			if call, ok := ta.X.(*ssa.Call); ok && call.Call.IsInvoke() && call.Call.Method.Name() == "Sys" {
+				sysAsserts = append(sysAsserts, ta)
+			}
+		})
+		first := ug != nil
+		for _, sa := range sysAsserts {
+			if ug == nil || !dominates(ug, sa) {
+				first = false
+			}
+		}
+		c.check(first, rule, "FileInfoUidGid precedes Sys() in the long name", p.Pos(rl.Pos()), "as in fileStatFromInfo, where it overrides",
+			"runLs looks at Sys() before FileInfoUidGid while fileStatFromInfo lets FileInfoUidGid override: an entry that has both shows one owner in the long name and another in its attributes")
+	}
 }
